@@ -90,6 +90,78 @@ func pkOfID(id []byte) []byte {
 	return nil
 }
 
+// aliasIDs returns byte strings that are NOT the peer id of k (IDFromPublicKey: identity multihash
+// with minimal varints around the canonical key message) but decode, as a multihash + key
+// message, to the same Ed25519 key: non-minimal varints for the hash code / the digest length,
+// the key message with an unknown field, with its two fields reordered, with a repeated field.
+func aliasIDs(k *key) [][]byte {
+	raw := []byte(k.id) // 00 24 | 08 01 12 20 <32 bytes>
+	digest := raw[2:]
+	mh := func(code, dlen, dg []byte) []byte {
+		return append(append(append([]byte(nil), code...), dlen...), dg...)
+	}
+	withLen := func(dg []byte) []byte { return mh([]byte{0x00}, pbl.AppendVarint(nil, uint64(len(dg))), dg) }
+	return [][]byte{
+		mh([]byte{0x80, 0x00}, []byte{0x24}, digest),                        // hash code 0 as a two-byte varint
+		mh([]byte{0x00}, []byte{0xa4, 0x00}, digest),                        // digest length 36 as a two-byte varint
+		withLen(append(append([]byte(nil), digest...), pbVarint(15, 3)...)), // unknown field behind the key
+		withLen(append(append([]byte(nil), digest[2:]...), digest[:2]...)),  // data field before the type field
+		withLen(append(append([]byte(nil), digest[:2]...), digest...)),      // type field twice
+		mh([]byte{0x80, 0x80, 0x00}, []byte{0xa4, 0x80, 0x00}, digest),      // three-byte varints
+	}
+}
+
+// pkOfIDLoose extracts the Ed25519 key an id names under ANY encoding a tolerant decoder accepts
+// (uvarint multihash header, key message fields in any order, last occurrence wins, unknown
+// fields skipped); nil when the bytes do not carry a 32-byte key of type 1.
+func pkOfIDLoose(id []byte) []byte {
+	code, n := uvarint(id)
+	if n <= 0 || code != 0 {
+		return nil
+	}
+	id = id[n:]
+	dl, n := uvarint(id)
+	if n <= 0 || uint64(len(id)-n) != dl {
+		return nil
+	}
+	b := id[n:]
+	var typ uint64
+	var key []byte
+	for len(b) > 0 {
+		tag, n := uvarint(b)
+		if n <= 0 {
+			return nil
+		}
+		b = b[n:]
+		switch tag & 7 {
+		case 0:
+			v, n := uvarint(b)
+			if n <= 0 {
+				return nil
+			}
+			b = b[n:]
+			if tag>>3 == 1 {
+				typ = v
+			}
+		case 2:
+			l, n := uvarint(b)
+			if n <= 0 || uint64(len(b)-n) < l {
+				return nil
+			}
+			if tag>>3 == 2 {
+				key = b[n : n+int(l)]
+			}
+			b = b[n+int(l):]
+		default:
+			return nil
+		}
+	}
+	if typ != 1 || len(key) != 32 {
+		return nil
+	}
+	return key
+}
+
 // oracleQuery answers the model's hash / verify / mid requests with library primitives.
 func (e *engine) oracleQuery(op string) (string, int) {
 	line := op
@@ -200,13 +272,16 @@ func tr(b bool) *bool { return &b }
 func (e *engine) runC27() {
 	e.rep.Rule = "ONE history per router of publish packets (Packet.Publish lists of 1-4 entries mixing rejected and valid entries in random order, replays and re-used signatures always after their source) sent to a real FloodSub over in-memory streams from 3 remote peers: re-use of the authentic signature of an earlier message (dropped as unsubscribed / unknown channel, delivered, rejected before verification) with other data / another channel / another sender / another hash type / only the channel rewritten; honest (3 channels, 3 hash types, 2 publishers, with/without timestamp), replayed via the same and another peer, tampered data, re-targeted channel (stale signature / signature for another channel's context), foreign signer with claimed sender, wrong context, empty channel, bad timestamp, unsubscribed / unknown channel, malformed sender / signature / hash type, duplicate-field and unknown-field encodings, random bit flips re-signed; observed = handler callbacks and packets forwarded to the other peers; distinct = distinct op line"
 	e.rep.Require("ok", "ok.released-key", "dup", "nosub", "batch.mixed", "hist.reuse-after-unsubscribed", "hist.reuse-after-unknown-channel", "hist.reuse-after-delivered", "hist.reuse-after-bad-timestamp", "rejected.decode", "rejected.invalidInner", "rejected.sign.badSignature",
-		"rejected.sign.emptyPeerId", "rejected.sign.sigInvalid", "rejected.sign.badPeerId", "rejected.sign.noPubKey", "inner.ok", "inner.err")
+		"rejected.sign.emptyPeerId", "rejected.sign.sigInvalid", "rejected.sign.badPeerId", "rejected.sign.noPubKey", "inner.ok", "inner.err", "alias.sender", "local.subscribed", "local.unsubscribed-again")
 	batches := 3 * e.a.Scale
 	for b := 0; b < batches; b++ {
 		e.c27Batch(b)
 	}
 	for i := 0; i < e.a.Scale; i++ {
 		e.c27ReleasedKey(i)
+	}
+	for i := 0; i < 3*e.a.Scale; i++ {
+		e.c27LocalChanges(i)
 	}
 	e.c27Inner()
 }
@@ -374,6 +449,25 @@ func (e *engine) c27Batch(b int) {
 		rp := h1.CloneVT()
 		rp.Signature.PubKey = []byte{} // same id: the embedded key is not part of the id
 		add("replay-reencoded", rp, (via+1)%3, tr(false), "", d0(h1)).after = ch1
+		// the claimed sender changed to another ENCODING of the same key (the signature still
+		// verifies under the key the alias names): a changed sender must be rejected. Fresh message,
+		// replay of a delivered message (same signature: must not be handed out a second time), and
+		// a publisher that is a connected peer (must not be sent back to it)
+		al := aliasIDs(k)
+		d = tag()
+		t0 := honest(k, ch, ht, d, nil)
+		t0.FromPeerId = base58.Encode(al[(r+b)%len(al)])
+		add("alias-sender/fresh", t0, via, tr(false), "", d)
+		rp = h1.CloneVT()
+		rp.FromPeerId = base58.Encode(al[(r+b+1)%len(al)])
+		add("alias-sender/replay", rp, (via+1)%3, tr(false), "", d0(h1)).after = ch1
+		rp = h1.CloneVT()
+		rp.FromPeerId = base58.Encode(al[(r+b+2)%len(al)])
+		add("alias-sender/replay", rp, via, tr(false), "", d0(h1)).after = ch1
+		d = tag()
+		t0 = honest(peers[(via+1)%3].key, "alpha", ht, d, nil)
+		t0.FromPeerId = base58.Encode(aliasIDs(peers[(via+1)%3].key)[(r+b+3)%len(al)])
+		add("alias-sender/origin-is-peer", t0, via, tr(false), "", d)
 		// channels the router does not subscribe to
 		d = tag()
 		add("unsubscribed-channel", honest(k, "gamma", ht, d, nil), via, tr(false), "", d)
@@ -670,9 +764,11 @@ func (e *engine) c27Batch(b int) {
 			}
 		}
 		var mine []delivery
+		// a delivery belongs to the case whose data it carries and whose claimed sender (as bytes) it reports
+		rawFrom, errFrom := base58.Decode(c.msg.GetFromPeerId())
 		if dkey != nil {
 			for i, d := range allDels {
-				if !usedDel[i] && bytes.Equal(d.data, dkey) {
+				if !usedDel[i] && bytes.Equal(d.data, dkey) && (errFrom != nil || string(d.from) == string(rawFrom)) {
 					usedDel[i] = true
 					mine = append(mine, d)
 				}
@@ -756,9 +852,16 @@ func (e *engine) c27Batch(b int) {
 				if f == tplStr(p.tpl) && p.key.id.String() == c.msg.GetFromPeerId() {
 					mon = "message sent back to its original publisher (" + c.gen + ")"
 				}
+				// the publisher is the holder of the key the claimed sender names, however the id is encoded
+				if f == tplStr(p.tpl) && errFrom == nil && bytes.Equal(pkOfIDLoose(rawFrom), p.key.pub) {
+					mon = "message sent back to the peer whose key its claimed sender names: its original publisher (" + c.gen + ")"
+				}
 			}
 		}
-		e.rep.Compare(c.op, model, impl, br, "pubsub.handle:"+c.gen, mon)
+		if strings.HasPrefix(c.gen, "alias-sender/") {
+			e.rep.Case("pubsub.handle #alias-sender "+c.gen, "x", "x", "alias.sender", false)
+		}
+		e.compareCapped(c.op, model, impl, br, "pubsub.handle:"+c.gen, mon)
 	}
 	// stated on the observations alone (no case attribution, no model): whatever the router handed to
 	// a subscriber or wrote to another peer is authentic for its claimed sender and for a channel the
@@ -774,7 +877,11 @@ func (e *engine) c27Batch(b int) {
 	}
 	for _, d := range allDels {
 		if !authSent[authKey{string(d.from), d.subCh, string(d.data)}] {
-			e.rep.Compare("pubsub.handle:delivered-unauthentic data="+lib.Hex(d.data), "none", "delivery", "ok", "pubsub.handle:delivered-unauthentic",
+			okey := "pubsub.handle:delivered-unauthentic"
+			if pkOfID([]byte(d.from)) == nil && pkOfIDLoose([]byte(d.from)) != nil {
+				okey = "pubsub.handle:alias-sender/delivered" // the reported sender is not the id of any key, only another encoding of one
+			}
+			e.compareCapped("pubsub.handle:delivered-unauthentic data="+lib.Hex(d.data), "none", "delivery", "ok", okey,
 				fmt.Sprintf("a subscriber of %s was handed (sender %s, data %q) but no packet sent to the router carries that data with a signature that verifies (crypto/ed25519) for that sender and that channel", d.subCh, d.from.String(), d.data))
 		}
 	}
@@ -790,7 +897,11 @@ func (e *engine) c27Batch(b int) {
 				ch, _, ok = stdAuthentic(fm)
 			}
 			if !ok || (ch != "alpha" && ch != "beta") {
-				e.rep.Compare("pubsub.handle:forwarded-unauthentic msg="+lib.Hex([]byte(f)), "none", "forward", "ok", "pubsub.handle:forwarded-unauthentic",
+				okey := "pubsub.handle:forwarded-unauthentic"
+				if raw, err := base58.Decode(fm.GetFromPeerId()); err == nil && pkOfID(raw) == nil && pkOfIDLoose(raw) != nil {
+					okey = "pubsub.handle:alias-sender/forwarded"
+				}
+				e.compareCapped("pubsub.handle:forwarded-unauthentic msg="+lib.Hex([]byte(f)), "none", "forward", "ok", okey,
 					fmt.Sprintf("the router wrote a publish entry (claimed sender %q, channel %q) to another peer that does not verify (crypto/ed25519) for its claimed sender and channel, or names a channel the router does not subscribe to", fm.GetFromPeerId(), ch))
 			}
 		}
